@@ -625,4 +625,47 @@ example : (run (init pEx bEx) life).proposal.contains 0 = false ∧
     (run (init pEx bEx) life).ubds.all (fun u => u.oracle != 0) = true ∧ (ghOf (run (init pEx bEx) life) 0).reon = false ∧
     ((Store.get (run (init pEx bEx) life).oracles 0).map (·.online)) = some false := by decide
 
+/-! ## round 5: governance removal executed inside a block -/
+
+/-- **an offline oracle is left alone by a block**: the end-blocker changes nothing in the record of an oracle that is
+offline when the block ends (no second penalty, start height and stake untouched), whatever is pending and however old -/
+theorem offline_record_unchanged_by_block (s : State) (dt a : Nat) (o : Oracle)
+    (h0 : Store.get s.oracles a = some o) (hoff : o.online = false) :
+    Store.get (block s dt).1.oracles a = some o := by
+  unfold block
+  split
+  · exact h0
+  · rename_i s1 he
+    obtain ⟨_, g, hg, hrel⟩ := endBlock_rel slashing_code_facts s s.height s1 he
+    show Store.get s1.oracles a = some o
+    rw [hg, get_mapVals, h0]
+    obtain ⟨_, _, _, _, _, _, h7⟩ := hrel o
+    rcases h7 with h7 | h7
+    · simp [h7]
+    · rw [hoff] at h7; cases h7.1
+
+/-- **governance removal is not a penalty, also when it runs inside the block** (the message of a passed proposal executed by
+the gov end-blocker, which precedes the crosschain end-blocker of the same block): a record the update drops is offline with
+the SAME penalty counter, start height and stake after the block that follows the update, whatever objects it had left
+unconfirmed -/
+theorem gov_removed_not_penalised_in_block (s : State) (list : List Nat) (dt a : Nat) (o : Oracle)
+    (hok : (govUpdate s list).2 = .ok) (h0 : Store.get s.oracles a = some o)
+    (hd : dropped s list o = true) :
+    Store.get (block (govUpdate s list).1 dt).1.oracles a = some { o with online := false } := by
+  rcases govUpdate_cases s list with h | h
+  · exact absurd hok h.2.1
+  · obtain ⟨_, _, _, s2, ho, _, hrec, _, _⟩ := h
+    apply offline_record_unchanged_by_block
+    · rw [hrec, get_mapVals, ho, h0]; simp [hd]
+    · rfl
+
+-- non-vacuity: four bonded oracles, an unconfirmed bridge call, governance drops oracle 0 (25 % of the power); the call then ages
+-- past the window: oracle 0 is offline with penalty counter 0, the three that stayed are slashed
+def pR5 : Params := ⟨100, 10, 8 * 10 ^ 17, 2, 10, 100, 10 ^ 17, 2⟩
+def sR5 : State := run (init pR5 [(0, 5000), (1, 5000), (2, 5000), (3, 5000)])
+  [.gov [0, 1, 2, 3], .bond 0 0 0 0 100, .bond 1 1 1 0 100, .bond 2 2 2 0 100, .bond 3 3 3 0 100, .mkcall]
+example : (govUpdate sR5 [1, 2, 3]).2 = .ok ∧ ((Store.get sR5.oracles 0).map (fun o => (o.online, dropped sR5 [1, 2, 3] o))) = some (true, true) := by decide
+example : ((run (govUpdate sR5 [1, 2, 3]).1 [.block 5, .block 5, .block 5, .block 5]).oracles.map (fun p => (p.1, p.2.online, p.2.slashTimes))) =
+    [(3, false, 1), (2, false, 1), (1, false, 1), (0, false, 0)] := by decide
+
 end FxVerif.Props.C13
